@@ -890,6 +890,13 @@ pub fn spec() -> PropSpec {
         min_counts: &[("calls_on_one_generator", 1800), ("far_apart_calls_combine", 20)],
       },
       Check {
+        name: "process-histories",
+        rule: "clients are separate PROCESSES: 12 fresh processes that each perform a different first operation (nothing, PPOPRF blind / finalize / eval / verify, local randomness or share of ANOTHER triple, a report, an adss share, GGM eval, field inversion) and then derive randomness, tag, key, share (same entropy) and report for the same three triples: identical in all of them",
+        gen: |_| vec![json!({})],
+        run: |cx, _| crate::probe::process_order_check(cx, "C04", &|l: &str| l.starts_with("local randomness") || l.starts_with("tag") || l.starts_with("report") || l.starts_with("derive_ske_key") || l.starts_with("adss share")),
+        min_counts: &[("process_histories_agree", 11)],
+      },
+      Check {
         name: "client-threads",
         rule: "4 freshly spawned threads (own entropy stream each) x 3 clients per thread on one triple: all 12 evaluation points pairwise distinct, tags and keys equal, one share from each of t threads combine (a per-thread or per-process point generator that replays one sequence)",
         gen: |_| (1..=4u64).map(|t| json!({"t": t})).collect(),
